@@ -6,6 +6,7 @@ import (
 	"context"
 	"fmt"
 	"os"
+	"sort"
 	"os/exec"
 	"path/filepath"
 	"regexp"
@@ -403,5 +404,53 @@ func solveAll(units []*UnitResult, filter func(*Oblig) bool, timeout int, thorou
 			j.e.solveOb(j.o, timeout, thorough, dumpDir)
 		}(j)
 	}
+	// cover checks (thorough tier, or GOVC_COVERS=1): every return statement of a checked function must be reachable under the
+	// facts collected for it. A return that is not is either dead code or the footprint of contradictory assumptions on that
+	// path (the obligations on such a path hold vacuously); the list goes into the evidence and is compared with specs/dead_returns.json
+	if thorough || os.Getenv("GOVC_COVERS") != "" {
+		var mu sync.Mutex
+		for _, u := range units {
+			if len(u.Obs) == 0 || len(u.RetSites) < 2 {
+				continue
+			}
+			any := false
+			for _, o := range u.Obs {
+				if o.Solver != "syntactic" && (filter == nil || filter(o)) {
+					any = true
+				}
+			}
+			if !any {
+				continue
+			}
+			for i, rs := range u.RetSites {
+				wg.Add(1)
+				go func(u *UnitResult, i int, rs RetSite) {
+					defer wg.Done()
+					sem <- struct{}{}
+					defer func() { <-sem }()
+					cover := &Oblig{Func: u.Key, Kind: "cover", Label: "return reachable", PC: rs.PC, Cond: "false", nf: len(u.engine.facts), name: fmt.Sprintf("%s/%s/cover/return#%d", u.Pkg, strings.TrimPrefix(u.Key, "func "), i)}
+					vc := u.engine.sliceVC(cover, true, nil)
+					for _, sp := range []solverSpec{solvers[0], solvers[1]} {
+						r, _, _ := runSolver(sp, vc, 5)
+						if r == "unsat" {
+							if d := os.Getenv("GOVC_COVERDUMP"); d != "" {
+								os.WriteFile(filepath.Join(d, sanitizeFile(cover.name)+".smt2"), []byte(vc), 0o644)
+							}
+							mu.Lock()
+							u.DeadRets = append(u.DeadRets, fmt.Sprintf("%s#%d", rs.Where, i))
+							mu.Unlock()
+							return
+						}
+						if r == "sat" {
+							return
+						}
+					}
+				}(u, i, rs)
+			}
+		}
+	}
 	wg.Wait()
+	for _, u := range units {
+		sort.Strings(u.DeadRets)
+	}
 }
